@@ -40,25 +40,26 @@ Record js := {
   fsz : option N;             (* established final size *)
   deliv : N;                  (* bytes handed to the application *)
   cred : N;                   (* consumed, for credit: deliv, or the final size after a reset *)
-  adv : N                     (* largest MAX_STREAM_DATA on the wire (initially the window) *)
+  adv : N;                    (* largest MAX_STREAM_DATA on the wire (initially the window) *)
+  jwin : N                    (* the stream's configured receive window *)
 }.
 
-Record jstate := { jstr : list js; advc : N; jws : N; jwc : N; jtag : N; jopen : nat }.
+Record jstate := { jstr : list js; advc : N; jwc : N; jtag : N; jopen : nat }.
 
 Definition js_new (w : N) : js :=
-  {| ph := Live; acc := []; hi := 0; fsz := None; deliv := 0; cred := 0; adv := w |}.
+  {| ph := Live; acc := []; hi := 0; fsz := None; deliv := 0; cred := 0; adv := w; jwin := w |}.
 
-Definition jinit (ws wc : N) : jstate :=
-  {| jstr := repeat (js_new ws) nstreams; advc := wc; jws := ws; jwc := wc; jtag := 1; jopen := O |}.
+Definition jinit (ws wl wc : N) : jstate :=
+  {| jstr := [js_new ws; js_new ws; js_new wl; js_new wl]; advc := wc; jwc := wc; jtag := 1; jopen := O |}.
 
 Definition jget (j : jstate) (i : nat) : js := nth i (jstr j) (js_new 0).
 Definition jput (j : jstate) (i : nat) (s : js) : jstate :=
-  {| jstr := set_nth i (jstr j) s; advc := advc j; jws := jws j; jwc := jwc j; jtag := jtag j; jopen := jopen j |}.
+  {| jstr := set_nth i (jstr j) s; advc := advc j; jwc := jwc j; jtag := jtag j; jopen := jopen j |}.
 
 (* a frame for stream i creates the streams up to i (RFC 9000 3.2); the application cannot use a
    stream before that *)
 Definition jopen_upto (j : jstate) (i : nat) : jstate :=
-  {| jstr := jstr j; advc := advc j; jws := jws j; jwc := jwc j; jtag := jtag j; jopen := Nat.max (jopen j) (S i) |}.
+  {| jstr := jstr j; advc := advc j; jwc := jwc j; jtag := jtag j; jopen := open_count (jopen j) i |}.
 
 Definition sum_hi (l : list js) : N := fold_right (fun s a => hi s + a) 0 l.
 Definition sum_cred (l : list js) : N := fold_right (fun s a => cred s + a) 0 l.
@@ -73,7 +74,7 @@ Record viol := { v_big : bool; v_flow : bool; v_final : bool; legit_strict : boo
 Definition analyse (j : jstate) (i : nat) (e : N) (fin_viol : bool) : viol :=
   let s := jget j i in
   let used := sum_hi (jstr j) - hi s + N.max (hi s) e in
-  let lim_s := sat_add (cred s) (jws j) in
+  let lim_s := sat_add (cred s) (jwin s) in
   let lim_c := sat_add (sum_cred (jstr j)) (jwc j) in
   let big := varint_max <? e in
   let flow := (lim_s <? e) || (lim_c <? used) in
@@ -133,7 +134,7 @@ Definition read_ok (s : js) (limit : option N) (out : list Z) : option (js * lis
                                | Some z => if z =? p then Closed else ph s
                                | None => ph s end; acc := acc s; hi := hi s; fsz := fsz s;
                          deliv := p; cred := match ph s with Live => N.max (cred s) p | _ => cred s end;
-                         adv := adv s |}, rest)
+                         adv := adv s; jwin := jwin s |}, rest)
               else None
           end
       | _ => None
@@ -152,17 +153,17 @@ Fixpoint post_ok (l : list js) (out : list Z) : bool :=
 
 Definition adv_ok (v : Z) (bound : N) : bool := (v =? -1)%Z || ((0 <=? v)%Z && (zN v <=? bound)).
 
-Fixpoint transmit_ok (ws : N) (l : list js) (out : list Z) : option (list js * list Z) :=
+Fixpoint transmit_ok (l : list js) (out : list Z) : option (list js * list Z) :=
   match l with
   | [] => Some ([], out)
   | s :: r =>
       match out with
       | v :: rest =>
-          if adv_ok v (sat_add (cred s) ws) then
-            match transmit_ok ws r rest with
+          if adv_ok v (sat_add (cred s) (jwin s)) then
+            match transmit_ok r rest with
             | Some (l', rest') =>
                 Some ({| ph := ph s; acc := acc s; hi := hi s; fsz := fsz s; deliv := deliv s; cred := cred s;
-                         adv := if (v =? -1)%Z then adv s else N.max (adv s) (zN v) |} :: l', rest')
+                         adv := if (v =? -1)%Z then adv s else N.max (adv s) (zN v); jwin := jwin s |} :: l', rest')
             | None => None
             end
           else None
@@ -177,7 +178,7 @@ Fixpoint judge_ops (pol : bool) (j : jstate) (ops : list op) (out : list Z) : bo
     match o with
     | OStream i off len fin =>
         let t := jtag j in
-        let j := {| jstr := jstr j; advc := advc j; jws := jws j; jwc := jwc j; jtag := t + 1; jopen := Nat.max (jopen j) (S i) |} in
+        let j := {| jstr := jstr j; advc := advc j; jwc := jwc j; jtag := t + 1; jopen := open_count (jopen j) i |} in
         let s := jget j i in
         let e := off + len in
         let fin_viol := match fsz s with
@@ -204,7 +205,7 @@ Fixpoint judge_ops (pol : bool) (j : jstate) (ops : list op) (out : list Z) : bo
                                            | None => Live end;
                                      acc := (t, off, e) :: acc s; hi := N.max (hi s) e;
                                      fsz := fsz'; deliv := deliv s; cred := cred s;
-                                     adv := adv s |}
+                                     adv := adv s; jwin := jwin s |}
                         | _ => s
                         end in
               judge_ops pol (jput j i s') rest out'
@@ -227,7 +228,7 @@ Fixpoint judge_ops (pol : bool) (j : jstate) (ops : list op) (out : list Z) : bo
               let s' := match ph s with
                         | Closed => s
                         | _ => {| ph := Closed; acc := acc s; hi := N.max (hi s) size; fsz := Some size;
-                                  deliv := deliv s; cred := N.max (hi s) size; adv := adv s |}
+                                  deliv := deliv s; cred := N.max (hi s) size; adv := adv s; jwin := jwin s |}
                         end in
               judge_ops pol (jput j i s') rest out'
             else post_ok (jstr j) out'
@@ -245,9 +246,9 @@ Fixpoint judge_ops (pol : bool) (j : jstate) (ops : list op) (out : list Z) : bo
     | OStop i =>
         let s := jget j i in
         let s' := match ph s with
-                  | Live => if (jopen j <=? i)%nat then s else
+                  | Live => if negb ((2 <=? i)%nat || (i <? jopen j)%nat) then s else
                             {| ph := Stopped; acc := acc s; hi := hi s; fsz := fsz s; deliv := deliv s;
-                               cred := cred s; adv := adv s |}
+                               cred := cred s; adv := adv s; jwin := jwin s |}
                   | _ => s
                   end in
         judge_ops pol (jput j i s') rest out
@@ -255,10 +256,10 @@ Fixpoint judge_ops (pol : bool) (j : jstate) (ops : list op) (out : list Z) : bo
         match out with
         | md :: out' =>
             if adv_ok md (sat_add (sum_cred (jstr j)) (jwc j)) then
-              match transmit_ok (jws j) (jstr j) out' with
+              match transmit_ok (jstr j) out' with
               | Some (l', out'') =>
                   judge_ops pol {| jstr := l'; advc := if (md =? -1)%Z then advc j else N.max (advc j) (zN md);
-                               jws := jws j; jwc := jwc j; jtag := jtag j; jopen := jopen j |} rest out''
+                               jwc := jwc j; jtag := jtag j; jopen := jopen j |} rest out''
               | None => false
               end
             else false
@@ -270,8 +271,9 @@ Fixpoint judge_ops (pol : bool) (j : jstate) (ops : list op) (out : list Z) : bo
 
 Definition judge_pol (pol : bool) (c out : list Z) : bool :=
   let ws := u32 (hd 0%Z c) in
-  let wc := u32 (hd 0%Z (tl c)) in
-  judge_ops pol (jinit ws wc) (parse (length c) (tl (tl c))) out.
+  let wl := u32 (hd 0%Z (tl c)) in
+  let wc := u32 (hd 0%Z (tl (tl c))) in
+  judge_ops pol (jinit ws wl wc) (parse (length c) (tl (tl (tl c)))) out.
 
 Definition judge : list Z -> list Z -> bool := judge_pol true.
 (* the same judgement except that a RESET_STREAM whose final size is below data already received
